@@ -10,26 +10,64 @@ package mapr
 
 //@ func NewAggregateSet
 //@   ensures [nonnil] result != nil
+//@   ensures [empty] result.Samples == 0 && forallStr(k, !has(result.FValues, k) && !has(result.SValues, k))
 //@ func NewGroupSet
 //@   ensures [nonnil] result != nil
 //@ func (*GroupSet).InitSet
 //@   constructor
 //@   assigns g.sets
+//@   ensures [empty] forallStr(k, !has(g.sets, k))
+// The aggregate of a group key: the one stored under that key, made empty first
+// if there was none; no other key is touched.
 //@ func (*GroupSet).GetSet
 //@   assigns *g.sets
 //@   ensures [nonnil] result != nil
+//@   ensures [the-stored-set] has(g.sets, groupKey) && g.sets[groupKey] == result
+//@   ensures [fresh-is-empty] implies(!old(has(g.sets, groupKey)), result.Samples == 0 && forallStr(k, !has(result.FValues, k) && !has(result.SValues, k)))
+//@   ensures [existing-kept] implies(old(has(g.sets, groupKey)), result == old(g.sets[groupKey]))
+//@   ensures [others-kept] forallStr(k, implies(k != groupKey, has(g.sets, k) == old(has(g.sets, k)) && implies(has(g.sets, k), g.sets[k] == old(g.sets[k]))))
+// ---- the aggregation algebra (C05) ----------------------------------------------
+// A partial aggregate keeps, per storage key, an optional number (FValues) and an
+// optional string (SValues); "absent" is the neutral element of every
+// combination. othersKept: no other key of the map changed.
+//@ define fKept(s, key) == forallStr(k, implies(k != key, has(s.FValues, k) == old(has(s.FValues, k)) && implies(has(s.FValues, k), s.FValues[k] == old(s.FValues[k]))))
+//@ define sKept(s, key) == forallStr(k, implies(k != key, has(s.SValues, k) == old(has(s.SValues, k)) && implies(has(s.SValues, k), s.SValues[k] == old(s.SValues[k]))))
 //@ func (*AggregateSet).addFloat
 //@   assigns *s.FValues
+//@   ensures [sum] has(s.FValues, key) && s.FValues[key] == ite(old(has(s.FValues, key)), old(s.FValues[key]) + value, value)
+//@   ensures [others-kept] fKept(s, key)
 //@ func (*AggregateSet).addFloatMin
 //@   assigns *s.FValues
+//@   ensures [min] has(s.FValues, key) && s.FValues[key] == ite(old(has(s.FValues, key)) && old(s.FValues[key]) <= value, old(s.FValues[key]), value)
+//@   ensures [others-kept] fKept(s, key)
 //@ func (*AggregateSet).addFloatMax
 //@   assigns *s.FValues
+//@   ensures [max] has(s.FValues, key) && s.FValues[key] == ite(old(has(s.FValues, key)) && old(s.FValues[key]) >= value, old(s.FValues[key]), value)
+//@   ensures [others-kept] fKept(s, key)
 //@ func (*AggregateSet).setFloat
 //@   assigns *s.FValues
+//@   ensures [set] has(s.FValues, key) && s.FValues[key] == value
+//@   ensures [others-kept] fKept(s, key)
 //@ func (*AggregateSet).setString
 //@   assigns *s.SValues
+//@   ensures [set] has(s.SValues, key) && s.SValues[key] == value
+//@   ensures [others-kept] sKept(s, key)
+
+// One value into a partial aggregate. On the server a count counts the line; on
+// the client (clientAggregation) it adds the partial count that was sent. A
+// value that is no number where one is needed changes nothing and is an error.
+//@ define numeric(agg, client) == (agg == Sum || agg == Avg || agg == Min || agg == Max || (agg == Count && client))
 //@ func (*AggregateSet).Aggregate
 //@   assigns *s.FValues, *s.SValues
+//@   ensures [not-a-number] implies(numeric(agg, clientAggregation) && !isFloat(value), !isnil(err) && fKept(s, "") && has(s.FValues, "") == old(has(s.FValues, "")) && sKept(s, "") && has(s.SValues, "") == old(has(s.SValues, "")))
+//@   ensures [count-a-line] implies(agg == Count && !clientAggregation, isnil(err) && s.FValues[key] == ite(old(has(s.FValues, key)), old(s.FValues[key]) + 1, 1))
+//@   ensures [count-partials] implies(agg == Count && clientAggregation && isFloat(value), isnil(err) && s.FValues[key] == ite(old(has(s.FValues, key)), old(s.FValues[key]) + floatOf(value), floatOf(value)))
+//@   ensures [sum-avg] implies((agg == Sum || agg == Avg) && isFloat(value), isnil(err) && s.FValues[key] == ite(old(has(s.FValues, key)), old(s.FValues[key]) + floatOf(value), floatOf(value)))
+//@   ensures [min] implies(agg == Min && isFloat(value), isnil(err) && s.FValues[key] == ite(old(has(s.FValues, key)) && old(s.FValues[key]) <= floatOf(value), old(s.FValues[key]), floatOf(value)))
+//@   ensures [max] implies(agg == Max && isFloat(value), isnil(err) && s.FValues[key] == ite(old(has(s.FValues, key)) && old(s.FValues[key]) >= floatOf(value), old(s.FValues[key]), floatOf(value)))
+//@   ensures [last] implies(agg == Last, isnil(err) && s.SValues[key] == value && has(s.SValues, key))
+//@   ensures [len] implies(agg == Len, isnil(err) && s.SValues[key] == value && s.FValues[key] == len(value))
+//@   ensures [only-this-key] fKept(s, key) && sKept(s, key)
 //@ func (*AggregateSet).Serialize
 //@   assigns *ch
 //@ func (*GroupSet).Serialize
@@ -40,21 +78,46 @@ package mapr
 // their "unknown aggregation" branch.
 //@ type Query invariant [select-ops-valid] forall(i, 0, len(self.Select), self.Select[i].Operation >= 1 && self.Select[i].Operation <= 7)
 
+// Merging a partial aggregate into another: per selected column the two optional
+// values are combined by the column's operation, an absent value being neutral
+// (it must neither count as 0 for min / max nor wipe a string). One column per
+// round of the loop; k is the column's storage key.
+//@ define fUnchanged(s, k) == (has(s.FValues, k) == prev(has(s.FValues, k)) && implies(has(s.FValues, k), s.FValues[k] == prev(s.FValues[k])))
+//@ define sUnchanged(s, k) == (has(s.SValues, k) == prev(has(s.SValues, k)) && implies(has(s.SValues, k), s.SValues[k] == prev(s.SValues[k])))
+//@ define mergedSum(s, set, k) == (has(s.FValues, k) && s.FValues[k] == ite(prev(has(s.FValues, k)), prev(s.FValues[k]), 0) + ite(has(set.FValues, k), set.FValues[k], 0))
+//@ define mergedMin(s, set, k) == ite(has(set.FValues, k), has(s.FValues, k) && s.FValues[k] == ite(prev(has(s.FValues, k)) && prev(s.FValues[k]) <= set.FValues[k], prev(s.FValues[k]), set.FValues[k]), fUnchanged(s, k))
+//@ define mergedMax(s, set, k) == ite(has(set.FValues, k), has(s.FValues, k) && s.FValues[k] == ite(prev(has(s.FValues, k)) && prev(s.FValues[k]) >= set.FValues[k], prev(s.FValues[k]), set.FValues[k]), fUnchanged(s, k))
+//@ define mergedLast(s, set, k) == ite(has(set.SValues, k), has(s.SValues, k) && s.SValues[k] == set.SValues[k], sUnchanged(s, k))
+//@ define mergedLen(s, set, k) == ite(has(set.SValues, k) && has(set.FValues, k), s.SValues[k] == set.SValues[k] && s.FValues[k] == set.FValues[k], sUnchanged(s, k) && fUnchanged(s, k))
+//@ define othersUnchanged(s, key) == (forallStr(k, implies(k != key, has(s.FValues, k) == prev(has(s.FValues, k)) && implies(has(s.FValues, k), s.FValues[k] == prev(s.FValues[k])))) && forallStr(k, implies(k != key, has(s.SValues, k) == prev(has(s.SValues, k)) && implies(has(s.SValues, k), s.SValues[k] == prev(s.SValues[k])))))
 //@ func (*AggregateSet).Merge
 //@   requires [args] query != nil && set != nil
 //@   assigns s.Samples, *s.FValues, *s.SValues
 //@   ensures [no-error] isnil(result)
+//@   ensures [samples-add-up] s.Samples == old(s.Samples) + set.Samples
+//@   loop 1 invariant [samples-set-first] s.Samples == old(s.Samples) + set.Samples
+//@   loop 1 step [sum-count-avg] implies(query.Select[rangeindex].Operation == Count || query.Select[rangeindex].Operation == Sum || query.Select[rangeindex].Operation == Avg, mergedSum(s, set, query.Select[rangeindex].FieldStorage))
+//@   loop 1 step [min-absent-is-neutral] implies(query.Select[rangeindex].Operation == Min, mergedMin(s, set, query.Select[rangeindex].FieldStorage))
+//@   loop 1 step [max-absent-is-neutral] implies(query.Select[rangeindex].Operation == Max, mergedMax(s, set, query.Select[rangeindex].FieldStorage))
+//@   loop 1 step [last-absent-is-neutral] implies(query.Select[rangeindex].Operation == Last, mergedLast(s, set, query.Select[rangeindex].FieldStorage))
+//@   loop 1 step [len-absent-is-neutral] implies(query.Select[rangeindex].Operation == Len, mergedLen(s, set, query.Select[rangeindex].FieldStorage))
+//@   loop 1 step [only-this-column] othersUnchanged(s, query.Select[rangeindex].FieldStorage)
+// Every group of the offered set is merged into the global aggregate of the
+// same key, with the query's columns.
 //@ func (*GlobalGroupSet).merge
 //@   requires [args] query != nil && group != nil
-//@   assigns *g.sets
+//@   assigns *g.sets, elems(g.sets)
+//@   bind target == GetSet
+//@   at-call GetSet [same-group-key] arg1 == groupKey
+//@   at-call ).Merge [into-the-same-keys-aggregate] arg0 == target && arg1 == query && arg2 == set && has(group.sets, groupKey) && group.sets[groupKey] == set
 //@   ensures [no-error] isnil(result)
 //@ func (*GlobalGroupSet).MergeNoblock
 //@   requires [args] query != nil && group != nil
-//@   assigns *g.sets, *g.semaphore
+//@   assigns *g.sets, elems(g.sets), *g.semaphore
 //@   ensures [no-error] isnil(result1)
 //@ func (*GlobalGroupSet).Merge
 //@   requires [args] query != nil && group != nil
-//@   assigns *g.sets, *g.semaphore
+//@   assigns *g.sets, elems(g.sets), *g.semaphore
 //@   ensures [no-error] isnil(result)
 //@ type GlobalGroupSet invariant [semaphore] self.semaphore != nil
 
@@ -222,23 +285,52 @@ package mapr
 //@   loop 1 step [order-one-argument] !(argsNonEmpty(prev(tokens), len(prev(tokens)) - len(tokens)) && lower(prev(tokens)[0].str) == "order" && len(prev(tokens)) >= by(prev(tokens)) + 2 && argTok(prev(tokens)[by(prev(tokens))]) && argTok(prev(tokens)[by(prev(tokens)) + 1]))
 //@   loop 1 step [rorder-one-argument] !(argsNonEmpty(prev(tokens), len(prev(tokens)) - len(tokens)) && lower(prev(tokens)[0].str) == "rorder" && len(prev(tokens)) >= by(prev(tokens)) + 2 && argTok(prev(tokens)[by(prev(tokens))]) && argTok(prev(tokens)[by(prev(tokens)) + 1]))
 //@   loop 1 step [only-its-own-field] implies(lower(prev(tokens)[0].str) != "from", q.Table == prev(q.Table)) && implies(lower(prev(tokens)[0].str) != "limit", q.Limit == prev(q.Limit)) && implies(lower(prev(tokens)[0].str) != "interval", q.Interval == prev(q.Interval)) && implies(lower(prev(tokens)[0].str) != "logformat", q.LogFormat == prev(q.LogFormat)) && implies(lower(prev(tokens)[0].str) != "order" && lower(prev(tokens)[0].str) != "rorder", q.OrderBy == prev(q.OrderBy)) && implies(lower(prev(tokens)[0].str) != "rorder", q.ReverseOrder == prev(q.ReverseOrder)) && implies(lower(prev(tokens)[0].str) != "group", q.GroupKey == prev(q.GroupKey))
+// ---- evaluating where and set on one line's fields (C05) ----------------------------
+// A line passes iff every condition holds. A float condition needs both sides to
+// be numbers (a literal, or a field that is present and parses); a string
+// condition needs its field arguments present.
+//@ define numPresent(fields, str, t) == (t == Float || (t == Field && has(fields, str) && isFloat(fields[str])))
+//@ define numValue(fields, str, fl, t) == ite(t == Float, fl, floatOf(fields[str]))
+//@ define strPresent(fields, str, t) == (t == String || (t == Field && has(fields, str)))
+//@ define strValue(fields, str, t) == ite(t == String, str, fields[str])
+//@ define floatRel(op, l, r) == ((op == FloatEq && l == r) || (op == FloatNe && l != r) || (op == FloatLt && l < r) || (op == FloatLe && l <= r) || (op == FloatGt && l > r) || (op == FloatGe && l >= r))
+//@ define strRel(op, l, r) == ((op == StringEq && l == r) || (op == StringNe && l != r) || (op == StringContains && contains(l, r)) || (op == StringNotContains && !contains(l, r)) || (op == StringHasPrefix && hasPrefix(l, r)) || (op == StringNotHasPrefix && !hasPrefix(l, r)) || (op == StringHasSuffix && hasSuffix(l, r)) || (op == StringNotHasSuffix && !hasSuffix(l, r)))
+//@ define floatCond(fields, wc) == (numPresent(fields, wc.lString, wc.lType) && numPresent(fields, wc.rString, wc.rType) && floatRel(wc.Operation, numValue(fields, wc.lString, wc.lFloat, wc.lType), numValue(fields, wc.rString, wc.rFloat, wc.rType)))
+//@ define strCond(fields, wc) == (strPresent(fields, wc.lString, wc.lType) && strPresent(fields, wc.rString, wc.rType) && strRel(wc.Operation, strValue(fields, wc.lString, wc.lType), strValue(fields, wc.rString, wc.rType)))
+//@ define condHolds(fields, wc) == ite(wc.Operation > FloatOperation, floatCond(fields, wc), strCond(fields, wc))
 //@ func (*Query).WhereClause
 //@   assigns nothing
+//@   loop 1 invariant [all-so-far] -1 <= rangeindex && rangeindex < len(q.Where) && forall(i, 0, rangeindex + 1, condHolds(fields, q.Where[i]))
+//@   ensures [conjunction] result == forall(i, 0, len(q.Where), condHolds(fields, q.Where[i]))
+//@ func whereClauseFloatValues
+//@   assigns nothing
+//@   ensures [float-condition] result == floatCond(fields, wc)
+//@ func whereClauseFloatValue
+//@   assigns nothing
+//@   ensures [number-or-numeric-field] result1 == numPresent(fields, str, t) && implies(result1, result0 == numValue(fields, str, float, t))
+//@ func whereClauseStringValues
+//@   assigns nothing
+//@   ensures [string-condition] result == strCond(fields, wc)
+//@ func whereClauseStringValue
+//@   assigns nothing
+//@   ensures [string-or-present-field] result1 == strPresent(fields, str, t) && implies(result1, result0 == strValue(fields, str, t))
+//@ func (*whereCondition).floatClause
+//@   assigns nothing
+//@   ensures [relation] result == floatRel(wc.Operation, lValue, rValue)
+//@ func (*whereCondition).stringClause
+//@   assigns nothing
+//@   ensures [relation] result == strRel(wc.Operation, lValue, rValue)
+
+// set: every assignment, in order, stores the value of the named field (or the
+// literal text when there is no such field), through the function stack if any.
 //@ func (*Query).SetClause
 //@   requires [fields] fields != nil
 //@   assigns *fields
-//@ func whereClauseFloatValues
-//@   assigns nothing
-//@ func whereClauseFloatValue
-//@   assigns nothing
-//@ func whereClauseStringValues
-//@   assigns nothing
-//@ func whereClauseStringValue
-//@   assigns nothing
-//@ func (*whereCondition).floatClause
-//@   assigns nothing
-//@ func (*whereCondition).stringClause
-//@   assigns nothing
+//@   ensures [no-error] isnil(result)
+//@   loop 1 step [assigns-the-variable] setRound(fields, q.Set[rangeindex])
+//@   loop 1 step [only-the-variable] setOthers(fields, q.Set[rangeindex].lString)
+//@ define setRound(fields, sc) == (has(fields, sc.lString) && implies(sc.rType != FunctionStack, fields[sc.lString] == ite(prev(has(fields, sc.rString)), prev(fields[sc.rString]), sc.rString)))
+//@ define setOthers(fields, key) == forallStr(k, implies(k != key, has(fields, k) == prev(has(fields, k)) && implies(has(fields, k), fields[k] == prev(fields[k]))))
 
 // ---- outfile (C15) -------------------------------------------------------------------
 // Ghost file system: fsData(p) / fsExists(p) are content and existence of path p,
@@ -298,3 +390,16 @@ package mapr
 //@   ensures [def] result == (q.Outfile != nil)
 //@ func (*GroupSet).result
 //@   assigns nothing
+//@ func (*GlobalGroupSet).Merge$1
+//@   inline
+
+// One result cell: the stored number of the column (its sum divided by the
+// number of samples for avg); the order key of a row is the cell of the order
+// column.
+//@ func (*GroupSet).resultSelect
+//@   requires [args] query != nil && sc != nil && set != nil && result != nil
+//@   assigns *result
+//@   ensures [one-cell] implies(isnil(result1), len(result.values) == old(len(result.values)) + 1)
+//@   ensures [order-key] implies(isnil(result1) && sc.FieldStorage == query.OrderBy && (sc.Operation == Count || sc.Operation == Sum || sc.Operation == Min || sc.Operation == Max || sc.Operation == Len), result.orderBy == ite(has(set.FValues, sc.FieldStorage), set.FValues[sc.FieldStorage], 0))
+//@   ensures [avg-is-sum-over-samples] implies(isnil(result1) && sc.FieldStorage == query.OrderBy && sc.Operation == Avg && set.Samples != 0, result.orderBy * set.Samples == ite(has(set.FValues, sc.FieldStorage), set.FValues[sc.FieldStorage], 0))
+//@   ensures [order-key-kept] implies(sc.FieldStorage != query.OrderBy, result.orderBy == old(result.orderBy))
